@@ -62,6 +62,9 @@ var pipes = map[string]pipeSpec{
 		Script: func(a *attempt) string {
 			return "var a = stream|from().measurement('m1')\nvar b = stream|from().measurement('m2')\na|join(b).as('a','b').tolerance(2s)|log().prefix('j')"
 		}},
+	// UDF node (in-process mirror agent over pipes) in the middle
+	"udf": {Counted: true, Meas: []string{"m"}, Outs: []outSpec{{"s", "log", "m"}},
+		Script: func(a *attempt) string { return `stream|from().measurement('m')@mirror()|log().prefix('s')` }},
 	// failing middle node (alert id template) with a sink behind and in front of it
 	"midfail": {Counted: true, Meas: []string{"m"}, Outs: []outSpec{{"pre", "log", "m"}, {"h", "alert", "m"}, {"s", "log", "m"}},
 		Script: func(a *attempt) string {
